@@ -130,8 +130,64 @@ def run(ctx):
     ctx.ob("R7.1", "evaluate_function_call:felt-branch-selected-by-type", ok,
            "canonical_felt252 is applied exactly on the `expr.ty == felt252` edge; every other type goes to validate_literal", efc.where())
 
+    # ---------------- R7.5 one rounding family for every division of constants
+    # Run-time `/` and `%` are the two projections of DivRem::div_rem (corelib by_div_rem), which truncates toward zero;
+    # both evaluators compute div_rem with Integer::div_rem (truncating).  Every other quotient / remainder computed on
+    # constants must come from the same family, otherwise `-7 / 2` differs between compile time and run time.
+    FAMILY = {"div": "truncating", "rem": "truncating", "div_rem": "truncating", "checked_div": "truncating", "checked_rem": "truncating",
+              "div_assign": "truncating", "rem_assign": "truncating", "wrapping_div": "truncating", "wrapping_rem": "truncating",
+              "div_floor": "flooring", "mod_floor": "flooring", "div_mod_floor": "flooring",
+              "div_euclid": "euclidean", "rem_euclid": "euclidean", "checked_div_euclid": "euclidean", "checked_rem_euclid": "euclidean",
+              "div_ceil": "ceiling", "div_rem_euclid": "euclidean"}
+    numeric = ("BigInt", "bigint", "num_integer", "BigUint", "core::ops::arith::Div", "core::ops::arith::Rem", "i128", "u128", "i64", "u64", "isize", "usize")
+    n_div = 0
+    ords = {}
+    for mod, what in (("cairo_lang_semantic::items::constant::", "semantic constant evaluator"),
+                      ("cairo_lang_lowering::optimizations::const_folding::", "lowering const folder")):
+        for p, g in sorted(F.fns.items()):
+            if not g.body or not (p.startswith(mod) or p.startswith("<" + mod)):
+                continue
+            for c in g.calls():
+                nm = c.name()
+                if nm not in FAMILY or not any(x in c.path or any(x in ga for ga in c.gargs) for x in numeric):
+                    continue
+                # divisions of machine integers that are not constants of the program (sizes, indices) are not values
+                tys = [g.local_ty(op_local(a)) or "" for a in c.args if op_local(a) is not None]
+                if not any("BigInt" in t or "BigUint" in t for t in tys) and "Big" not in c.path:
+                    continue
+                n_div += 1
+                ords[(last_seg(g.root), nm)] = ords.get((last_seg(g.root), nm), 0) + 1
+                fam = FAMILY[nm]
+                ctx.ob("R7.5", "%s|%s#%d" % (last_seg(g.root), nm, ords[(last_seg(g.root), nm)]), fam == "truncating",
+                       "%s: `%s` on constants is %s division%s" % (what, nm, fam, "" if fam == "truncating" else
+                                                                     " - run time (DivRem::div_rem and its projections `/`, `%`) truncates toward zero, so the results differ for operands of opposite sign"),
+                       c.where())
+    ctx.floor("quotient / remainder computations on constants (both evaluators)", n_div, 4)
+
+    # ---------------- R7.6 a remainder is computed together with its quotient, and the quotient is validated
+    # Run-time `%` is the second component of DivRem::div_rem, which fails when the quotient does not fit the type
+    # (signed MIN % -1).  A compile-time remainder must therefore come from a div_rem whose quotient is validated.
+    n_rem = 0
+    for c in efc.calls():
+        nm = c.name()
+        if nm in ("rem", "mod_floor", "rem_euclid", "checked_rem") and ("BigInt" in c.path or "bigint" in c.path or "num_integer" in c.path
+                                                                          or any("BigInt" in ga for ga in c.gargs)):
+            n_rem += 1
+            ctx.ob("R7.6", "evaluate_function_call|%s-without-quotient" % nm, False,
+                   "the remainder is computed by `%s` alone: at run time `%%` is DivRem::div_rem, which fails when the quotient overflows "
+                   "(MIN %% -1), but no quotient exists here to be validated - the constant gets a value where run time panics" % nm, c.where())
+        if nm in ("div_rem", "div_mod_floor", "div_rem_euclid"):
+            n_rem += 1
+            fl = efc.flows_to(place_local(c.dest))
+            validated = [v for v in vl if op_local(v.args[-1]) in fl and ok_block_after(efc, v) is not None]
+            ctx.ob("R7.6", "evaluate_function_call|%s-quotient-validated#%d" % (nm, n_rem), bool(validated),
+                   "a result of this %s is passed to validate_literal before the components become constants" % nm if validated else
+                   "no component of this %s is validated against the type range (signed MIN / -1 overflows)" % nm, c.where())
+    ctx.floor("remainder computations in the semantic evaluator", n_rem, 2)
+
     # ---------------- R7.2 division guarded by the zero test
-    divs = [c for c in efc.calls() if c.name() in ("div", "rem") and ("BigInt" in c.path or "bigint" in c.path)]
+    divs = [c for c in efc.calls() if c.name() in FAMILY and ("BigInt" in c.path or "bigint" in c.path or "num_integer" in c.path
+                                                                                         or any("BigInt" in ga for ga in c.gargs))]
     ctx.floor("division/remainder sites (semantic evaluator)", len(divs), 2)
     dz = blocks_constructing(efc, "SemanticDiagnosticKind", "DivisionByZero")
     zsw = None
@@ -157,15 +213,19 @@ def run(ctx):
     else:
         r = check_guard(efc, CallResult("is_zero", True), sinks=set(dz), bypass="none")
         ctx.ob("R7.2", "evaluate_function_call:is_zero=>DivisionByZero", r.ok, r.msg, efc.where(r.line))
-        for i, c in enumerate(sorted(divs, key=lambda c: c.name())):
+        ordz = {}
+        for c in sorted(divs, key=lambda c: (c.name(), c.line)):
+            ordz[c.name()] = ordz.get(c.name(), 0) + 1
             bypass = correlated_reach(efc, 0, {c.bb}, {zsw} | set(dz), key_of)
-            ctx.ob("R7.2", "evaluate_function_call:%s-after-zero-test" % c.name(), not bypass,
-                   "every feasible path to the %s passes the divisor's is_zero test" % c.name() if not bypass else
-                   "the %s is reachable without the zero-divisor test" % c.name(), c.where())
-    # div_rem: the quotient is validated (signed MIN / -1)
-    drs = [c for c in efc.calls() if c.name() == "div_rem"]
-    ctx.ob("R7.2", "evaluate_function_call:div_rem-quotient-validated", len(drs) == 1 and any(
-        "c:div_rem" in op_prov(efc, v.args[-1], 8) for v in vl), "the div_rem quotient is passed to validate_literal", efc.where())
+            key = "evaluate_function_call:%s#%d-after-zero-test" % (c.name(), ordz[c.name()])
+            ok = not bypass
+            msg = ("every feasible path to the %s passes the divisor's is_zero test" % c.name() if not bypass else
+                   "the %s is reachable without the zero-divisor test" % c.name())
+            if not ok and key in exc:
+                used.add(key)
+                ok = True
+                msg += " [exception: %s]" % exc[key]
+            ctx.ob("R7.2", key, ok, msg, c.where())
 
     # ---------------- R7.3 lowering const folding
     CF = "cairo_lang_lowering::optimizations::const_folding::"
